@@ -6,6 +6,38 @@ BASE_NOTE = ("Trusted base: SQLite itself, Autobahn framing / Twisted transport 
              "sendMessage + MemoryReactorClock), os.urandom not colliding. Bounded: alphabet, participants and depth as "
              "reported in the evidence file; merged states differ only by a renaming of server-generated ids.")
 CHECKS = {
+ "C01": dict(cat="model_checking", ref="DESIGN.md §4 C01",
+     text="Explicit-state BFS over the real server: every history (<= depth) of bind/claim/open/add/close/disconnect/"
+          "expiry sweep/restart over 2 apps, 2 sides, mailboxes m,n and the mailbox behind nameplate 1. On every open "
+          "answered without error the replayed message frames must equal the ghost log of accepted adds of the current "
+          "mailbox incarnation (multiset of side/phase/body/id); after every step the messages table must equal the "
+          "union of the ghost logs (a row that outlives its mailbox, or an acknowledged add that is not stored after a "
+          "restart, is a violation).",
+     tech="explicit-state BFS of the implementation with a ghost message-log monitor"),
+ "C03": dict(cat="model_checking", ref="DESIGN.md §4 C03",
+     text="Explicit-state BFS over claims/releases/closes/disconnects/expiry/restart over 2 apps x 2 names x 2 sides; on "
+          "every `claimed` frame: same live incarnation => the id told before; new incarnation (or other app / other name) "
+          "=> an id never handed out before; the id must be exactly the >=64 bits the random source returned.",
+     tech="explicit-state BFS of the implementation with a ghost set of every id ever handed out"),
+ "C05": dict(cat="model_checking", ref="DESIGN.md §4 C05",
+     text="Explicit-state BFS from the initial state and from four seeded states in which two sides already share the "
+          "nameplate/mailbox; 3 (thorough 4) sides over up to 5 connections. Sides are ranked by first arrival per mailbox "
+          "incarnation: a side ranked >=3 must get exactly one error (crowded) and no id and never a message of that "
+          "mailbox; the first two keep delivery (C02 clause) and storage (C01 clause). One known finding (F6).",
+     tech="explicit-state BFS of the implementation with arrival-order ghost; known-findings filter"),
+ "C07": dict(cat="model_checking", ref="DESIGN.md §4 C07",
+     text="Explicit-state BFS over claim/release/close/list/disconnect by 3 sides over 2 nameplates (one side may hold both "
+          "through two connections). After every step: a nameplate row disappears only by its last release or with its "
+          "mailbox; every ghost holder still has its claimed side row and the same mailbox; gone after the last release; "
+          "release always answered released; release by a non-holder and a refused re-claim change nothing; listings "
+          "contain every held nameplate once and nothing dead.",
+     tech="explicit-state BFS of the implementation with a ghost holder-set monitor"),
+ "C08": dict(cat="model_checking", ref="DESIGN.md §4 C08",
+     text="Explicit-state BFS over claim/release/open/add/close by sides A,B over up to 5 connections, nameplates 1,2 and "
+          "client-chosen mailboxes. A mailbox row disappears only when its last open side closes; every close is answered "
+          "closed without internal error; the last close leaves no row of that mailbox/nameplate and changes no other row; "
+          "a re-sent close changes nothing; remaining subscribers keep delivery and messages.",
+     tech="explicit-state BFS of the implementation with an open-side ghost and before/after row comparison"),
  "C02": dict(cat="model_checking", ref="DESIGN.md §4 C02",
      text="Explicit-state BFS over the real server code: every history (<= depth) of connections/binds/open/add/close/"
           "disconnect/sweep/restart over 2 apps, 2 sides, 2 mailboxes, up to 4 connections; on every accepted add the "
